@@ -341,7 +341,7 @@ func checkShared(c SharedCase) (v ev.Verdict) {
 }
 
 func TestC12Shared(t *testing.T) {
-	ev.Run(t, ev.Opts{Property: "C12", Name: "shared", Quick: 400, Thorough: 20000, Journal: true,
+	ev.Run(t, ev.Opts{Property: "C12", Name: "shared", Quick: 400, Thorough: 12000, Journal: true,
 		Rule: "lively deterministic specs (native and ECMAScript actions/guards, failing and succeeding); 4-32 distinct machine states walked concurrently against ONE compiled spec for 1-3 rounds under the race detector, each result compared with the sequential result and the spec's snapshot compared before/after; update variant: two stamped versions behind an UpdatableSpec flipped by a swapper while walkers call Spec() then Walk, every walk must equal the sequential walk under one whole version; non-trivial = >= 4 goroutines overlapped and >= 1 action ran",
 	}, genShared, checkShared)
 }
